@@ -165,17 +165,78 @@ theorem Ext.present {bs bs' : List (String × String)} (h : Ext bs bs') {n : Str
   obtain ⟨data, hd⟩ := hp
   exact ⟨data, h n data hd⟩
 
-theorem readBlob_eq_of_find {c : Consts} {d d' : Disk} {n : String}
-    (h : findBlob d'.blobs n = findBlob d.blobs n) : readBlob c d' n = readBlob c d n := by
-  unfold readBlob
-  rw [h]
+/-- `read_blob` on a present file, by cases. -/
+theorem readBlob_none {c : Consts} {d : Disk} {n : String} (h : findBlob d.blobs n = none) :
+    readBlob c d n = (d, none) := by
+  simp only [readBlob, h]
 
-/-- `read_blob` returns the payload of a well-formed blob. -/
-theorem readBlob_blobData {c : Consts} {d : Disk} {n payload : String}
-    (h : findBlob d.blobs n = some (blobData c payload)) : readBlob c d n = some payload := by
-  unfold readBlob
-  rw [h]
+theorem readBlob_foreign {c : Consts} {d : Disk} {n data : String}
+    (h : findBlob d.blobs n = some data) (hne : data ≠ n) :
+    readBlob c d n = ({ d with blobs := d.blobs.filter (fun b => b.1 ≠ n) }, none) := by
+  simp only [readBlob, h]
+  rw [if_pos hne]
+
+theorem readBlob_own {c : Consts} {d : Disk} {n : String} (h : findBlob d.blobs n = some n) :
+    readBlob c d n =
+      (d, if n.startsWith c.header = true then some (n.drop c.header.length).toString else none) := by
+  simp only [readBlob, h]
+  rw [if_neg (fun hne => hne rfl)]
+  split <;> rfl
+
+/-- What `read_blob` returns depends on the named file only. -/
+theorem readBlob_eq_of_find {c : Consts} {d d' : Disk} {n : String}
+    (h : findBlob d'.blobs n = findBlob d.blobs n) : (readBlob c d' n).2 = (readBlob c d n).2 := by
+  cases hf : findBlob d.blobs n with
+  | none => rw [readBlob_none hf, readBlob_none (h.trans hf)]
+  | some data =>
+    by_cases h1 : data = n
+    · subst h1; rw [readBlob_own hf, readBlob_own (h.trans hf)]
+    · rw [readBlob_foreign hf h1, readBlob_foreign (h.trans hf) h1]
+
+/-- `read_blob` returns the payload of a well-formed blob stored under its own name, and leaves
+    the disk alone. -/
+theorem readBlob_blobData {c : Consts} {d : Disk} {payload : String}
+    (h : findBlob d.blobs (blobData c payload) = some (blobData c payload)) :
+    readBlob c d (blobData c payload) = (d, some payload) := by
+  rw [readBlob_own h]
   simp only [blobData, startsWith_append, if_true, drop_append]
+
+/-- `read_blob` never touches the manifest. -/
+theorem readBlob_manifest (c : Consts) (d : Disk) (n : String) :
+    (readBlob c d n).1.manifest = d.manifest := by
+  cases hf : findBlob d.blobs n with
+  | none => rw [readBlob_none hf]
+  | some data =>
+    by_cases h1 : data = n
+    · subst h1; rw [readBlob_own hf]
+    · rw [readBlob_foreign hf h1]
+
+theorem eq_append_of_startsWith {h s : String} (hs : s.startsWith h = true) :
+    s = h ++ (s.drop h.length).toString := by
+  obtain ⟨rest, hrest⟩ := (String.startsWith_string_iff).mp hs
+  apply String.toList_inj.mp
+  simp [String.toList_copy_drop]
+  rw [← hrest, ← String.length_toList, List.drop_left]
+
+/-- Whatever `read_blob` returns is the payload of a file whose content is its name; and then the
+    disk is unchanged. -/
+theorem readBlob_some {c : Consts} {d : Disk} {n payload : String}
+    (h : (readBlob c d n).2 = some payload) :
+    findBlob d.blobs n = some n ∧ n = c.header ++ payload ∧ (readBlob c d n).1 = d := by
+  cases hf : findBlob d.blobs n with
+  | none => rw [readBlob_none hf] at h; cases h
+  | some data =>
+    by_cases h1 : data = n
+    · subst h1
+      rw [readBlob_own hf] at h ⊢
+      refine ⟨rfl, ?_, rfl⟩
+      by_cases h2 : data.startsWith c.header = true
+      · rw [if_pos h2] at h
+        have hp : (data.drop c.header.length).toString = payload := Option.some.inj h
+        rw [← hp]
+        exact eq_append_of_startsWith h2
+      · rw [if_neg h2] at h; cases h
+    · rw [readBlob_foreign hf h1] at h; cases h
 
 theorem BlobsOk.find {c : Consts} {bs : List (String × String)} (hb : BlobsOk c bs) {n data : String}
     (h : findBlob bs n = some data) : data = n ∧ ∃ p, n = blobData c p :=
@@ -183,12 +244,14 @@ theorem BlobsOk.find {c : Consts} {bs : List (String × String)} (hb : BlobsOk c
 
 /-- Under `BlobsOk` every present blob is readable, and its payload is determined by its name. -/
 theorem readBlob_of_present {c : Consts} {d : Disk} (hb : BlobsOk c d.blobs) {n : String}
-    (hp : Present d.blobs n) : ∃ payload, n = blobData c payload ∧ readBlob c d n = some payload := by
+    (hp : Present d.blobs n) :
+    ∃ payload, n = blobData c payload ∧ readBlob c d n = (d, some payload) := by
   obtain ⟨data, hd⟩ := hp
   obtain ⟨hdn, p, hp⟩ := hb.find hd
   refine ⟨p, hp, ?_⟩
-  apply readBlob_blobData
-  rw [hd, hdn, hp]
+  subst hdn
+  subst hp
+  rw [readBlob_blobData hd]
 
 theorem writeBlob_some {c : Consts} {d : Disk} {payload x : String}
     (h : findBlob d.blobs (blobName c payload) = some x) :
@@ -252,7 +315,8 @@ theorem writeBlob_find {c : Consts} {d : Disk} (hb : BlobsOk c d.blobs) (payload
     rw [findBlob_cons, if_pos rfl]
 
 theorem readBlob_writeBlob {c : Consts} {d : Disk} (hb : BlobsOk c d.blobs) (payload : String) :
-    readBlob c (writeBlob c d payload).1 (writeBlob c d payload).2 = some payload := by
+    readBlob c (writeBlob c d payload).1 (writeBlob c d payload).2
+      = ((writeBlob c d payload).1, some payload) := by
   rw [writeBlob_name]
   exact readBlob_blobData (writeBlob_find hb payload)
 
@@ -328,7 +392,8 @@ theorem RefsOk.update {bs : List (String × String)} {fs : Files} (h : RefsOk bs
 /-! ### The abstraction of file maps -/
 
 theorem load_congr {c : Consts} {d d' : Disk} {e : Entry}
-    (h : ∀ n, e.refs n → findBlob d'.blobs n = findBlob d.blobs n) : load c d' e = load c d e := by
+    (h : ∀ n, e.refs n → findBlob d'.blobs n = findBlob d.blobs n) :
+    (load c d' e).2 = (load c d e).2 := by
   unfold load
   cases hf : e.fragment with
   | none => rfl
@@ -336,7 +401,7 @@ theorem load_congr {c : Consts} {d d' : Disk} {e : Entry}
 
 theorem loadDiagnostics_congr {c : Consts} {d d' : Disk} {e : Entry}
     (h : ∀ n, e.refs n → findBlob d'.blobs n = findBlob d.blobs n) :
-    loadDiagnostics c d' e = loadDiagnostics c d e := by
+    (loadDiagnostics c d' e).2 = (loadDiagnostics c d e).2 := by
   unfold loadDiagnostics
   cases hf : e.diagnostics with
   | none => rfl
@@ -527,6 +592,104 @@ theorem gc_find_sub {d : Disk} {fs : Files} {n data : String}
   · rwa [if_pos hc] at h
   · rw [if_neg hc] at h; cases h
 
+/-! ### Reads: `load` / `load_diagnostics` may remove a damaged file, never under `BlobsOk` -/
+
+/-- Content-addressed blobs are never removed by `read_blob`. -/
+theorem readBlob_fst_of_blobsOk {c : Consts} {d : Disk} (hb : BlobsOk c d.blobs) (n : String) :
+    (readBlob c d n).1 = d := by
+  cases hf : findBlob d.blobs n with
+  | none => rw [readBlob_none hf]
+  | some data =>
+    have hdn := (hb.find hf).1
+    subst hdn
+    rw [readBlob_own hf]
+
+theorem load_fst_of_blobsOk {c : Consts} {d : Disk} (hb : BlobsOk c d.blobs) (e : Entry) :
+    (load c d e).1 = d := by
+  unfold load
+  cases e.fragment with
+  | none => rfl
+  | some n => exact readBlob_fst_of_blobsOk hb n
+
+theorem loadDiagnostics_fst_of_blobsOk {c : Consts} {d : Disk} (hb : BlobsOk c d.blobs) (e : Entry) :
+    (loadDiagnostics c d e).1 = d := by
+  unfold loadDiagnostics
+  cases e.diagnostics with
+  | none => rfl
+  | some n => exact readBlob_fst_of_blobsOk hb n
+
+theorem load_manifest (c : Consts) (d : Disk) (e : Entry) : (load c d e).1.manifest = d.manifest := by
+  unfold load
+  cases e.fragment with
+  | none => rfl
+  | some n => exact readBlob_manifest c d n
+
+theorem loadDiagnostics_manifest (c : Consts) (d : Disk) (e : Entry) :
+    (loadDiagnostics c d e).1.manifest = d.manifest := by
+  unfold loadDiagnostics
+  cases e.diagnostics with
+  | none => rfl
+  | some n => exact readBlob_manifest c d n
+
+theorem step_load_eq (c : Consts) (d : Disk) (m : Mem) (p : String) :
+    step c (d, some m) (.load p) =
+      match entry m p with
+      | none => (d, some m)
+      | some e => ((load c d e).1, some m) := rfl
+
+theorem step_loadDiagnostics_eq (c : Consts) (d : Disk) (m : Mem) (p : String) :
+    step c (d, some m) (.loadDiagnostics p) =
+      match entry m p with
+      | none => (d, some m)
+      | some e => ((loadDiagnostics c d e).1, some m) := rfl
+
+/-- Under `BlobsOk` the read operations are the identity on the state. -/
+theorem step_load {c : Consts} {s : State} (hb : BlobsOk c s.1.blobs) (p : String) :
+    step c s (.load p) = s := by
+  obtain ⟨d, om⟩ := s
+  cases om with
+  | none => rfl
+  | some m =>
+    rw [step_load_eq]
+    cases entry m p with
+    | none => rfl
+    | some e => simp only [load_fst_of_blobsOk hb e]
+
+theorem step_loadDiagnostics {c : Consts} {s : State} (hb : BlobsOk c s.1.blobs) (p : String) :
+    step c s (.loadDiagnostics p) = s := by
+  obtain ⟨d, om⟩ := s
+  cases om with
+  | none => rfl
+  | some m =>
+    rw [step_loadDiagnostics_eq]
+    cases entry m p with
+    | none => rfl
+    | some e => simp only [loadDiagnostics_fst_of_blobsOk hb e]
+
+/-- Without any invariant: reads change neither the manifest file nor the open store. -/
+theorem step_load_manifest_mem (c : Consts) (s : State) (p : String) :
+    (step c s (.load p)).1.manifest = s.1.manifest ∧ (step c s (.load p)).2 = s.2 := by
+  obtain ⟨d, om⟩ := s
+  cases om with
+  | none => exact ⟨rfl, rfl⟩
+  | some m =>
+    rw [step_load_eq]
+    cases entry m p with
+    | none => exact ⟨rfl, rfl⟩
+    | some e => exact ⟨load_manifest c d e, rfl⟩
+
+theorem step_loadDiagnostics_manifest_mem (c : Consts) (s : State) (p : String) :
+    (step c s (.loadDiagnostics p)).1.manifest = s.1.manifest ∧
+      (step c s (.loadDiagnostics p)).2 = s.2 := by
+  obtain ⟨d, om⟩ := s
+  cases om with
+  | none => exact ⟨rfl, rfl⟩
+  | some m =>
+    rw [step_loadDiagnostics_eq]
+    cases entry m p with
+    | none => exact ⟨rfl, rfl⟩
+    | some e => exact ⟨loadDiagnostics_manifest c d e, rfl⟩
+
 /-! ### Preservation of the invariant -/
 
 theorem inv_put {c : Consts} {d : Disk} {m : Mem} (h : Inv c (d, some m)) (p hs : String)
@@ -650,6 +813,8 @@ theorem inv_step {c : Consts} {s : State} (h : Inv c s) (o : Op) : Inv c (step c
     | setDependents p ds => exact inv_setDependents h p ds
     | setTests p ts => exact inv_setTests h p ts
     | save => exact inv_save h
+    | load p => rw [step_load h.blobs p]; exact h
+    | loadDiagnostics p => rw [step_loadDiagnostics h.blobs p]; exact h
 
 theorem inv_run {c : Consts} {s : State} (h : Inv c s) (ops : List Op) : Inv c (run c s ops) := by
   induction ops generalizing s with
@@ -881,6 +1046,8 @@ theorem refines_step {c : Consts} {s : State} (h : Inv c s) (o : Op) :
     | setDependents p ds => exact refines_setDependents p ds
     | setTests p ts => exact refines_setTests p ts
     | save => exact refines_save h
+    | load p => rw [step_load h.blobs p]; rfl
+    | loadDiagnostics p => rw [step_loadDiagnostics h.blobs p]; rfl
 
 theorem refines_run {c : Consts} {s : State} (h : Inv c s) (ops : List Op) :
     abs c (run c s ops) = arun (abs c s) ops := by
@@ -965,10 +1132,13 @@ theorem step_manifest {c : Consts} (s : State) {o : Op} (ho : o ≠ .save) :
       | none => rfl
       | some payload => exact writeBlob_manifest c d payload
     | setDiagnostics p b => exact setDiagnostics_manifest c d m p b
+    | load p => exact (step_load_manifest_mem c _ p).1
+    | loadDiagnostics p => exact (step_loadDiagnostics_manifest_mem c _ p).1
     | _ => rfl
 
-/-- Only `save` removes blob files. -/
-theorem step_ext {c : Consts} (s : State) {o : Op} (ho : o ≠ .save) :
+/-- Only `save` removes blob files (in a state satisfying the invariant: `read_blob` removes a
+    damaged file, and there is none). -/
+theorem step_ext {c : Consts} {s : State} (h : Inv c s) {o : Op} (ho : o ≠ .save) :
     Ext s.1.blobs (step c s o).1.blobs := by
   obtain ⟨d, om⟩ := s
   cases om with
@@ -981,6 +1151,8 @@ theorem step_ext {c : Consts} (s : State) {o : Op} (ho : o ≠ .save) :
       | none => exact Ext.refl _
       | some payload => exact writeBlob_ext c d payload
     | setDiagnostics p b => exact setDiagnostics_ext c d m p b
+    | load p => rw [step_load h.blobs p]; exact Ext.refl _
+    | loadDiagnostics p => rw [step_loadDiagnostics h.blobs p]; exact Ext.refl _
     | _ => exact Ext.refl _
 
 theorem run_manifest {c : Consts} (s : State) {ops : List Op} (ho : ∀ o ∈ ops, o ≠ Op.save) :
@@ -991,14 +1163,14 @@ theorem run_manifest {c : Consts} (s : State) {ops : List Op} (ho : ∀ o ∈ op
     rw [run_cons, ih _ (fun o' h' => ho o' (List.mem_cons_of_mem _ h')),
       step_manifest s (ho o List.mem_cons_self)]
 
-theorem run_ext {c : Consts} (s : State) {ops : List Op} (ho : ∀ o ∈ ops, o ≠ Op.save) :
+theorem run_ext {c : Consts} {s : State} (h : Inv c s) {ops : List Op} (ho : ∀ o ∈ ops, o ≠ Op.save) :
     Ext s.1.blobs (run c s ops).1.blobs := by
   induction ops generalizing s with
   | nil => exact Ext.refl _
   | cons o rest ih =>
     rw [run_cons]
-    exact (step_ext s (ho o List.mem_cons_self)).trans
-      (ih _ (fun o' h' => ho o' (List.mem_cons_of_mem _ h')))
+    exact (step_ext h (ho o List.mem_cons_self)).trans
+      (ih (inv_step h o) (fun o' h' => ho o' (List.mem_cons_of_mem _ h')))
 
 theorem astep_saved (a : AState) {o : Op} (ho : o ≠ .save) : (astep a o).saved = a.saved := by
   obtain ⟨sv, ss⟩ := a
@@ -1182,6 +1354,14 @@ theorem uniq_step {c : Consts} {s : State} (h : Uniq s) (o : Op) : Uniq (step c 
         · intro mf hmf; cases hmf; exact hnext
         · intro m1 hm1; cases hm1; exact hnext
         · intro m1 hm1; cases hm1; exact KeysNodup.nil
+    | load p =>
+      obtain ⟨h1, h2⟩ := step_load_manifest_mem c (d, some m) p
+      exact ⟨fun mf hmf => h.disk mf (h1 ▸ hmf), fun m1 hm1 => h.files m1 (h2 ▸ hm1),
+        fun m1 hm1 => h.next m1 (h2 ▸ hm1)⟩
+    | loadDiagnostics p =>
+      obtain ⟨h1, h2⟩ := step_loadDiagnostics_manifest_mem c (d, some m) p
+      exact ⟨fun mf hmf => h.disk mf (h1 ▸ hmf), fun m1 hm1 => h.files m1 (h2 ▸ hm1),
+        fun m1 hm1 => h.next m1 (h2 ▸ hm1)⟩
 
 theorem uniq_run {c : Consts} {s : State} (h : Uniq s) (ops : List Op) : Uniq (run c s ops) := by
   induction ops generalizing s with
